@@ -593,3 +593,404 @@ Proof.
 Qed.
 
 End Lexical.
+
+(* ------------------------------------------------------------------ Part 4: shape of calls and keys *)
+Lemma fold_cstep_normal_inv cs stk :
+  Forall normal stk -> Forall normal (fold_left (cstep true) cs stk).
+Proof.
+  revert stk; induction cs as [|c cs IH]; intros stk H; [exact H|]. cbn [fold_left]. apply IH.
+  destruct (is_triv c) eqn:Et; [rewrite cstep_triv by auto; exact H|].
+  destruct (is_dotdot c) eqn:Ed.
+  - unfold is_dotdot in Ed. apply bytes_eqb_eq in Ed. subst c. rewrite cstep_dotdot_eq.
+    destruct stk as [|t r]; [constructor|]. inversion H as [|? ? Ht Hr]; subst.
+    destruct Ht as (_ & _ & Ht). apply bytes_eqb_neq in Ht. rewrite Ht. exact Hr.
+  - rewrite cstep_normal by (apply normal_iff; auto). constructor; auto. apply normal_iff; auto.
+Qed.
+
+Lemma norm_clamp_normal cs : Forall normal (norm_clamp cs).
+Proof. unfold norm_clamp. apply Forall_rev. apply fold_cstep_normal_inv. constructor. Qed.
+
+Section Shape.
+Variable gmatch : bytes -> bytes -> bool.
+Variable view : list node.
+Variable reqs : list bytes.
+
+Definition PCN (cs : list bytes) : Prop :=
+  Forall (fun c => In c (comp_pool view reqs) /\ normal c) cs.
+
+Lemma PCN_split cs : PCN cs <-> PC view reqs cs /\ Forall normal cs.
+Proof.
+  unfold PCN, PC. rewrite !Forall_forall. split.
+  - intros H. split; intros c Hc; apply (H c Hc).
+  - intros [H1 H2] c Hc. split; auto.
+Qed.
+
+Lemma PCN_app a b : PCN a -> PCN b -> PCN (a ++ b).
+Proof. intros. apply Forall_app. split; auto. Qed.
+
+Lemma norm_clamp_PCN cs : PC view reqs cs -> PCN (norm_clamp cs).
+Proof. intros H. apply PCN_split. split; [apply norm_clamp_forall; exact H|apply norm_clamp_normal]. Qed.
+
+Lemma read_symlink1_norm dirc name t : In t (read_symlink1 view dirc name) -> exists X, t = norm_clamp X.
+Proof.
+  unfold read_symlink1. destruct (stat_node view (dirc ++ [name])) as [n|]; [|intros []].
+  destruct (node_is_symlink n); [|intros []]. intros [<-|[]]. unfold link_target. eauto.
+Qed.
+
+Lemma read_symlink_norm dirc c t : In t (read_symlink gmatch view dirc c) -> exists X, t = norm_clamp X.
+Proof.
+  unfold read_symlink. destruct (contains_wildcards c); [|apply read_symlink1_norm].
+  destruct (read_dir view dirc) as [kids|]; [|intros []]. intros H. apply in_flat_map in H.
+  destruct H as (k & _ & Hk). destruct (gmatch c (node_name k)); [|destruct Hk].
+  eapply read_symlink1_norm; eauto.
+Qed.
+
+Lemma read_symlink_PCN dirc c : PCN dirc -> Forall PCN (read_symlink gmatch view dirc c).
+Proof.
+  intros H. apply PCN_split in H. destruct H as [H _].
+  pose proof (read_symlink_PC gmatch view reqs dirc c H) as Hpc.
+  rewrite Forall_forall in Hpc |- *. intros t Ht. apply PCN_split. split; [apply Hpc; auto|].
+  destruct (read_symlink_norm _ _ _ Ht) as [X ->]. apply norm_clamp_normal.
+Qed.
+
+Definition goodkey (k : bytes) : Prop := k = s_dot \/ exists cs, cs <> [] /\ PCN cs /\ k = joinc cs.
+
+Definition newc (a b : fstate) : Prop := forall q, In q (g_calls b) -> In q (g_calls a) \/ PCN q.
+Definition newk (a b : fstate) : Prop := forall k, In k (resolved b) -> In k (resolved a) \/ goodkey k.
+
+Lemma newc_refl a : newc a a. Proof. intros q H; left; exact H. Qed.
+Lemma newk_refl a : newk a a. Proof. intros q H; left; exact H. Qed.
+Lemma newc_trans a b c : newc a b -> newc b c -> newc a c.
+Proof. intros H1 H2 q Hq. destruct (H2 q Hq) as [H|H]; [apply H1; exact H|right; exact H]. Qed.
+Lemma newk_trans a b c : newk a b -> newk b c -> newk a c.
+Proof. intros H1 H2 q Hq. destruct (H2 q Hq) as [H|H]; [apply H1; exact H|right; exact H]. Qed.
+
+Definition shape_rec (rec : rec_t) : Prop :=
+  forall st p st', PCN p -> rec st p = Ok st' -> newc st st' /\ newk st st'.
+
+Lemma each_target_shape rec rest ts : shape_rec rec -> PCN rest -> Forall PCN ts -> forall st st',
+  each_target rec rest ts st = Ok st' -> newc st st' /\ newk st st'.
+Proof.
+  intros Hrec Hrest. induction ts as [|t ts IH]; intros Hts st st' H; simpl in H.
+  - inversion H; subst. split; [apply newc_refl|apply newk_refl].
+  - inversion Hts as [|? ? Ht Hts']; subst.
+    destruct (rec st (norm_clamp (t ++ rest))) as [st1|] eqn:E; [|discriminate].
+    assert (Hp : PCN (norm_clamp (t ++ rest))).
+    { apply norm_clamp_PCN. apply PCN_split. apply PCN_app; auto. }
+    destruct (Hrec _ _ _ Hp E) as [X1 X2]. destruct (IH Hts' _ _ H) as [Y1 Y2].
+    split; [eapply newc_trans; eauto|eapply newk_trans; eauto].
+Qed.
+
+Lemma key_good cs : cs <> [] -> PCN cs -> goodkey (key cs).
+Proof. intros Hne H. right. exists cs. split; auto. split; auto. destruct cs; [congruence|reflexivity]. Qed.
+
+Lemma newk_add k st : goodkey k -> newk st (add_resolved k st).
+Proof. intros Hk q [<-|Hq]; [right; exact Hk|left; exact Hq]. Qed.
+
+Lemma loop_shape rec : shape_rec rec -> forall p cur st st', PCN cur -> PCN p ->
+  loop gmatch view rec cur p st = Ok st' -> newc st st' /\ newk st st'.
+Proof.
+  intros Hrec. induction p as [|c rest IH]; intros cur st st' Hcur Hp H.
+  - simpl in H. inversion H; subst. split; [apply newc_refl|apply newk_refl].
+  - inversion Hp as [|? ? Hc Hrest]; subst. cbn [loop] in H.
+    assert (Hcur' : PCN (cur ++ [c])) by (apply PCN_app; auto; constructor; auto).
+    assert (Hk : goodkey (key (cur ++ [c]))) by (apply key_good; auto; destruct cur; discriminate).
+    set (k := key (cur ++ [c])) in *. set (ts := read_symlink gmatch view cur c) in *.
+    destruct (mem k (resolved st)) eqn:Em.
+    + destruct (is_nil rest || negb (is_nil ts)) eqn:Eo; cbn [andb] in H.
+      * inversion H; subst. split; intros q Hq; left.
+        -- rewrite note_revisit_calls in Hq. exact Hq.
+        -- rewrite resolved_note_revisit in Hq. exact Hq.
+      * apply orb_false_iff in Eo. destruct Eo as [E1 E2]. rewrite E2, E1 in H. apply (IH _ _ _ Hcur' Hrest H).
+    + rewrite andb_false_r in H. destruct (negb (is_nil ts)) eqn:Eh.
+      * destruct (each_target_shape rec rest ts Hrec Hrest (read_symlink_PCN cur c Hcur) _ _ H) as [Y1 Y2].
+        split; [exact Y1|]. eapply newk_trans; [|exact Y2]. apply (newk_add k st Hk).
+      * destruct (is_nil rest).
+        -- inversion H; subst. split; [intros q Hq; left; exact Hq|apply newk_add; exact Hk].
+        -- apply (IH _ _ _ Hcur' Hrest H).
+Qed.
+
+Lemma append_shape fuel : shape_rec (append gmatch view fuel).
+Proof.
+  induction fuel as [|f IH]; intros st p st' Hp H; [discriminate|].
+  cbn [append] in H.
+  assert (Hc : newc st (add_call p st)) by (intros q [<-|Hq]; [right; exact Hp|left; exact Hq]).
+  destruct p as [|c r].
+  - inversion H; subst. change (resolved (add_call [] st)) with (resolved st).
+    destruct (mem s_dot (resolved st)); split; auto.
+    + intros q Hq; left; exact Hq.
+    + intros q [<-|Hq]; [right; left; reflexivity|left; exact Hq].
+  - destruct (loop_shape _ IH _ _ _ _ (Forall_nil _) Hp H) as [Y1 Y2].
+    split; [eapply newc_trans; eauto|exact Y2].
+Qed.
+
+Lemma follow_reqs_shape fuel rs : (forall r, In r rs -> In r reqs) -> forall st st',
+  follow_reqs gmatch view fuel st rs = Ok st' -> newc st st' /\ newk st st'.
+Proof.
+  induction rs as [|r rs IH]; intros Hin st st' H; simpl in H.
+  - inversion H; subst. split; [apply newc_refl|apply newk_refl].
+  - destruct (append gmatch view fuel st (norm_clamp (comps r))) as [st1|] eqn:E; [|discriminate].
+    assert (Hp : PCN (norm_clamp (comps r))).
+    { apply norm_clamp_PCN. apply Forall_forall. intros c Hc. unfold comp_pool. apply in_or_app. left.
+      apply in_flat_map. exists r. split; auto. apply Hin. left; reflexivity. }
+    destruct (append_shape _ _ _ _ Hp E) as [X1 X2].
+    destruct (IH (fun r0 Hr0 => Hin r0 (or_intror Hr0)) _ _ H) as [Y1 Y2].
+    split; [eapply newc_trans; eauto|eapply newk_trans; eauto].
+Qed.
+
+Lemma final_state_shape fuel st :
+  follow_state gmatch view fuel reqs = Ok st ->
+  (forall q, In q (g_calls st) -> PCN q) /\ (forall k, In k (resolved st) -> goodkey k).
+Proof.
+  intros H. destruct (follow_reqs_shape fuel reqs (fun r Hr => Hr) _ _ H) as [Y1 Y2]. split.
+  - intros q Hq. destruct (Y1 q Hq) as [[]|Hw]. exact Hw.
+  - intros k Hk. destruct (Y2 k Hk) as [[]|Hw]. exact Hw.
+Qed.
+
+End Shape.
+
+(* ------------------------------------------------------------------ Part 5: the main lemma *)
+Section Main.
+Variable gmatch : bytes -> bytes -> bool.
+Variable view : list node.
+Variable reqs : list bytes.
+Variable F : fstate.
+Hypothesis Hwf : forallb wf_node view = true.
+Hypothesis HW : forall q, In q (g_calls F) -> Walked gmatch view F q.
+Hypothesis HE : forall e, In e (g_expanded F) -> ExpOk gmatch view F e.
+Hypothesis HR : g_revisit F = [].
+Hypothesis HC : forall q, In q (g_calls F) -> PCN view reqs q.
+Hypothesis Hlex : forall l, In l (forest_links view) -> leading_dotdot_only (comps l) = true.
+Hypothesis Hlit : forall c, In c (comp_pool view reqs) -> contains_wildcards c = false.
+
+(* [y] is, or lies below, a resolved key *)
+Definition covR (y : list bytes) : Prop :=
+  exists y' z, y = y' ++ z /\ y' <> [] /\ PCN view reqs y' /\ mem (key y') (resolved F) = true.
+
+Definition post (trav : list (list bytes)) (r : cres) : Prop :=
+  (forall x, In x (traversed r) -> In x trav \/ covR x) /\
+  match final r with
+  | Reached [] => mem s_dot (resolved F) = true
+  | Reached y => covR y
+  | Failed => True
+  end.
+
+Lemma post_refines trav a b : refines a b -> post trav b -> post trav a.
+Proof.
+  intros [R1 R2] [P1 P2]. split; [intros x Hx; apply P1; apply R1; exact Hx|].
+  destruct R2 as [R2|R2]; rewrite R2; [exact I|exact P2].
+Qed.
+
+Lemma post_weaken x trav r : covR x -> post (x :: trav) r -> post trav r.
+Proof.
+  intros Hx [P1 P2]. split; [|exact P2]. intros y Hy. destruct (P1 y Hy) as [[<-|H]|H]; auto.
+Qed.
+
+Lemma post_failed trav : post trav (mkc trav Failed).
+Proof. split; [intros x Hx; left; exact Hx|exact I]. Qed.
+
+Lemma post_reached trav y : y <> [] -> covR y -> post trav (mkc trav (Reached y)).
+Proof.
+  intros Hne Hc. split; [intros x Hx; left; exact Hx|]. cbn [final mkc].
+  destruct y; [congruence|exact Hc].
+Qed.
+
+Lemma PCN_normal cs : PCN view reqs cs -> Forall normal cs.
+Proof. intros H. apply PCN_split in H. tauto. Qed.
+
+Lemma inner : forall f,
+  (forall f', (f' < f)%nat -> forall q trav, In q (g_calls F) -> post trav (cres1 view f' [] q trav)) ->
+  forall rest cur trav, PCN view reqs cur -> PCN view reqs rest -> rest <> [] ->
+    walk_ok gmatch view F cur rest -> post trav (cres1 view f cur rest trav).
+Proof.
+  intros f IHf. induction rest as [|c rest IH]; intros cur trav Hcur Hrest Hne Hwalk; [congruence|].
+  inversion Hrest as [|? ? [Hcp Hcn] Hrest']; subst.
+  rewrite cres1_eq. destruct (dir_at view cur) as [kids|] eqn:Ed; [|apply post_failed].
+  apply normal_iff in Hcn. destruct Hcn as [Et Edd]. rewrite Et, Edd.
+  destruct (find_kid c kids) as [n|] eqn:Ek; [|apply post_failed]. cbv zeta.
+  destruct (find_kid_In _ _ _ Ek) as [_ Hname]. rewrite Hname.
+  assert (Hlk : lookup view (cur ++ [c]) = Some n) by (rewrite (lookup_dir_at view cur c kids Ed); exact Ek).
+  assert (Hrs : read_symlink gmatch view cur c =
+                if node_is_symlink n then [link_target cur (node_link n)] else []).
+  { unfold read_symlink. rewrite (Hlit c Hcp). unfold read_symlink1, stat_node. rewrite Hlk. reflexivity. }
+  assert (Hcur' : PCN view reqs (cur ++ [c])).
+  { apply PCN_app; auto. constructor; [|constructor]. split; auto. apply normal_iff; auto. }
+  cbn [walk_ok] in Hwalk. rewrite Hrs in Hwalk.
+  destruct (node_is_symlink n) eqn:Es.
+  - cbn [is_nil negb] in Hwalk. destruct Hwalk as [Hm [Hexp|Hrev]]; [|rewrite HR in Hrev; destruct Hrev].
+    assert (Hcov : covR (cur ++ [c])).
+    { exists (cur ++ [c]), []. rewrite app_nil_r. repeat split; auto. destruct cur; discriminate. }
+    assert (Hpf : forall t, post trav (mkc ((cur ++ [c]) :: t) Failed) \/ True) by (intros; right; exact I).
+    assert (Hfail : post trav (mkc ((cur ++ [c]) :: trav) Failed)).
+    { split; [|exact I]. intros x [<-|Hx]; [right; exact Hcov|left; exact Hx]. }
+    destruct f as [|f']; [exact Hfail|]. destruct (is_nil (node_link n)); [exact Hfail|].
+    set (l := node_link n) in *. set (base := if is_abs l then [] else cur).
+    apply (post_weaken (cur ++ [c])); [exact Hcov|].
+    assert (Hbase : exists ks, dir_at view base = Some ks /\ Forall normal base).
+    { unfold base. destruct (is_abs l); [exists view; split; [reflexivity|constructor]|].
+      exists kids. split; [exact Ed|apply PCN_normal; exact Hcur]. }
+    destruct Hbase as (ks & Hbd & Hbn).
+    assert (Hll : leading_dotdot_only (comps l) = true) by (apply Hlex; eapply lookup_link; eauto).
+    eapply post_refines; [apply (cres1_lexical view Hwf (comps l) base f' rest _ ks Hbd Hbn Hll)|].
+    apply IHf; [lia|].
+    pose proof (HE _ Hexp) as Hok. cbn [ExpOk] in Hok. specialize (Hok (link_target cur l)).
+    rewrite Hrs in Hok. specialize (Hok (or_introl eq_refl)).
+    assert (Hid : norm_clamp (link_target cur l ++ rest) = link_target cur l ++ rest).
+    { apply norm_clamp_normal_id. apply Forall_app. split; [apply norm_clamp_normal|apply PCN_normal; exact Hrest']. }
+    rewrite Hid in Hok. exact Hok.
+  - cbn [is_nil negb] in Hwalk. destruct rest as [|c2 rest2].
+    + cbn [is_nil] in Hwalk. rewrite cres1_eq.
+      assert (Hne' : cur ++ [c] <> []) by (destruct cur; discriminate).
+      apply post_reached; [exact Hne'|].
+      exists (cur ++ [c]), []. rewrite app_nil_r. repeat split; auto.
+    + cbn [is_nil] in Hwalk. apply IH; auto. discriminate.
+Qed.
+
+Lemma main_lemma : forall f q trav, In q (g_calls F) -> post trav (cres1 view f [] q trav).
+Proof.
+  induction f as [f IHf] using lt_wf_ind. intros q trav Hq.
+  destruct q as [|c r].
+  - rewrite cres1_eq. split; [intros x Hx; left; exact Hx|]. exact (HW [] Hq).
+  - apply (inner f IHf (c :: r) [] trav); [constructor|apply HC; exact Hq|discriminate|exact (HW _ Hq)].
+Qed.
+
+End Main.
+
+(* ------------------------------------------------------------------ Part 6: from resolved keys to the result list *)
+Lemma comps_joinc_app_sep a r :
+  a <> [] -> Forall nosep a -> comps (joinc a ++ sep :: r) = a ++ comps r.
+Proof.
+  induction a as [|c a IH]; intros Hne Hs; [congruence|].
+  inversion Hs as [|? ? Hc Ha]; subst. destruct a as [|c2 a].
+  - simpl. apply comps_app_sep. exact Hc.
+  - rewrite joinc_cons by discriminate. rewrite <- app_assoc. cbn [app].
+    rewrite comps_app_sep by exact Hc. rewrite IH by (auto; discriminate). reflexivity.
+Qed.
+
+Lemma inside_joinc a b :
+  a <> [] -> Forall nosep a -> Forall nosep b -> inside (joinc a) (joinc b) = true -> exists w, b = a ++ w.
+Proof.
+  intros Hne Ha Hb H. apply inside_split in H. destruct H as [r Hr].
+  assert (Hbne : b <> []).
+  { intro; subst b. simpl in Hr. destruct (joinc a); discriminate. }
+  exists (comps r). rewrite <- (comps_joinc b Hbne Hb), Hr. apply comps_joinc_app_sep; auto.
+Qed.
+
+Lemma pat_prefix_literal gmatch a z :
+  (forall c, In c a -> contains_wildcards c = false) -> pat_prefix gmatch a (a ++ z) = true.
+Proof.
+  induction a as [|c a IH]; intros H; [reflexivity|]. cbn [app pat_prefix].
+  rewrite (H c (or_introl eq_refl)), bytes_eqb_refl. apply IH. intros; apply H; right; auto.
+Qed.
+
+Lemma pool_nosep view reqs c : In c (comp_pool view reqs) -> nosep c.
+Proof.
+  unfold comp_pool. intros H. apply in_app_or in H.
+  destruct H as [H|H]; apply in_flat_map in H; destruct H as (x & _ & Hx);
+    pose proof (comps_all_nosep x) as Hall; rewrite Forall_forall in Hall; auto.
+Qed.
+
+Section Final.
+Variable gmatch : bytes -> bytes -> bool.
+Variable view : list node.
+Variable reqs : list bytes.
+
+Lemma PCN_nosep cs : PCN view reqs cs -> Forall nosep cs.
+Proof. intros H. eapply Forall_impl; [|exact H]. intros c [Hc _]. eapply pool_nosep; eauto. Qed.
+
+Lemma cov_covered F res y :
+  (forall c, In c (comp_pool view reqs) -> contains_wildcards c = false) ->
+  (forall k, In k (resolved F) -> goodkey view reqs k) ->
+  finish F = Some res -> covR view reqs F y -> covered gmatch res y = true.
+Proof.
+  intros Hlit Hgood Hfin (y' & z & -> & Hne & Hpcn & Hm).
+  assert (Hkey : key y' = joinc y') by (destruct y'; [congruence|reflexivity]).
+  apply mem_In in Hm. destruct (finish_covers F res Hfin _ Hm) as (e & He & Hc).
+  unfold covered. apply existsb_exists. exists e. split; [exact He|].
+  assert (Hlity : forall cs, PCN view reqs cs -> forall c, In c cs -> contains_wildcards c = false).
+  { intros cs Hcs c Hc0. unfold PCN in Hcs. rewrite Forall_forall in Hcs. apply Hlit. apply (Hcs c Hc0). }
+  destruct Hc as [->|Hin].
+  - rewrite Hkey, (comps_joinc y' Hne (PCN_nosep _ Hpcn)). apply pat_prefix_literal. apply Hlity; auto.
+  - pose proof (finish_subset F res Hfin e He) as HeR.
+    destruct (Hgood e HeR) as [->|(ecs & Hene & Hepcn & ->)].
+    + exfalso. assert (Hn : finish F = None) by (apply finish_none_iff; exact HeR). congruence.
+    + rewrite Hkey in Hin.
+      destruct (inside_joinc ecs y' Hene (PCN_nosep _ Hepcn) (PCN_nosep _ Hpcn) Hin) as [w ->].
+      rewrite (comps_joinc ecs Hene (PCN_nosep _ Hepcn)). rewrite <- app_assoc.
+      apply pat_prefix_literal. apply Hlity; auto.
+Qed.
+
+Lemma literal_only_pool :
+  literal_only view reqs = true -> forall c, In c (comp_pool view reqs) -> contains_wildcards c = false.
+Proof.
+  unfold literal_only, links_literal, literal_path. intros H c Hc. apply andb_true_iff in H. destruct H as [H1 H2].
+  rewrite forallb_forall in H1, H2. unfold comp_pool in Hc. apply in_app_or in Hc.
+  destruct Hc as [Hc|Hc]; apply in_flat_map in Hc; destruct Hc as (x & Hx & Hcx).
+  - specialize (H1 x Hx). rewrite forallb_forall in H1. apply negb_true_iff. apply H1. exact Hcx.
+  - specialize (H2 x Hx). rewrite forallb_forall in H2. apply negb_true_iff. apply H2. exact Hcx.
+Qed.
+
+(* NEVER [unfold chroot_resolve_all in H]: the kernel then re-checks the conversion with the
+   resolver unfolded on 40 on one side only, which does not terminate in practice. *)
+Lemma chroot_resolve_all_eq p :
+  chroot_resolve_all gmatch view p = cresolve gmatch view 40 [] (map (fun c => (c, true)) (comps p)) [].
+Proof. reflexivity. Qed.
+
+(* closure of one request, for ANY bound on the number of links followed by the
+   independent resolver (kept abstract: the kernel must never unfold the resolver on 40) *)
+Lemma closed_for_request : forall (follows fuel : nat) (res : list bytes) (F : fstate) (r : bytes),
+  wf_view view = true ->
+  follow_state gmatch view fuel reqs = Ok F ->
+  finish F = Some res ->
+  g_revisit F = [] ->
+  lexical_safe view reqs = true ->
+  literal_only view reqs = true ->
+  In r reqs ->
+  forall o, In o (cresolve gmatch view follows [] (map (fun c => (c, true)) (comps r)) []) ->
+  closed_for gmatch false res o = true.
+Proof.
+  intros follows fuel res F r Hwf EF Hfin HR Hls Hlo Hr o Ho.
+  destruct (final_state_facts gmatch view fuel reqs F EF) as (Hreq & HW & HE).
+  destruct (final_state_shape gmatch view reqs fuel F EF) as (HC & HK).
+  pose proof (wf_view_forallb view Hwf) as Hwf'.
+  pose proof (literal_only_pool Hlo) as Hlit.
+  unfold lexical_safe in Hls. apply andb_true_iff in Hls. destruct Hls as [Hls1 Hls2].
+  rewrite forallb_forall in Hls1, Hls2.
+  (* the outcome is the literal resolution of the request *)
+  assert (Hflags : flags_ok (map (fun c => (c, true)) (comps r))).
+  { unfold flags_ok. apply Forall_forall. intros x Hx. apply in_map_iff in Hx. destruct Hx as (c & <- & Hc).
+    intros _. cbn [fst]. apply Hlit. unfold comp_pool. apply in_or_app. left. apply in_flat_map. eauto. }
+  rewrite (cresolve_literal gmatch view follows _ [] [] Hflags) in Ho.
+  rewrite map_map in Ho. cbn [fst] in Ho. rewrite map_id in Ho. destruct Ho as [<-|[]].
+  (* it asks for no more than resolving the cleaned request from the root *)
+  pose proof (cres1_lexical view Hwf' (comps r) [] follows [] [] view eq_refl (Forall_nil _) (Hls1 r Hr)) as Href.
+  rewrite !app_nil_r in Href. cbn [app] in Href.
+  pose proof (main_lemma gmatch view reqs F Hwf' HW HE HR HC Hls2 Hlit follows _ [] (Hreq r Hr)) as Hpost.
+  apply (post_refines view reqs F [] _ _ Href) in Hpost. destruct Hpost as [P1 P2].
+  unfold closed_for. apply andb_true_iff. split.
+  - apply forallb_forall. intros x Hx. destruct (P1 x Hx) as [[]|Hc].
+    eapply cov_covered; eauto.
+  - destruct (final (cres1 view follows [] (comps r) [])) as [[|y0 ys]|]; [|eapply cov_covered; eauto|reflexivity].
+    exfalso. apply mem_In in P2. assert (Hn : finish F = None) by (apply finish_none_iff; exact P2). congruence.
+Qed.
+
+Theorem result_closed_partial_proof : forall (fuel : nat) (isnil : bool) (res : list bytes),
+  wf_view view = true ->
+  follow_links_opt gmatch view fuel reqs = Ok (if isnil then None else Some res) ->
+  no_revisit gmatch view fuel reqs = true ->
+  lexical_safe view reqs = true ->
+  literal_only view reqs = true ->
+  closed_b gmatch view isnil res reqs = true.
+Proof.
+  intros fuel isnil res Hwf Hres Hnr Hls Hlo.
+  unfold closed_b. apply forallb_forall. intros r Hr. apply forallb_forall. intros o Ho.
+  destruct isnil; [reflexivity|].
+  unfold follow_links_opt in Hres. unfold no_revisit in Hnr.
+  destruct (follow_state gmatch view fuel reqs) as [F|] eqn:EF; [|discriminate].
+  inversion Hres as [Hfin]. clear Hres.
+  assert (HR : g_revisit F = []) by (destruct (g_revisit F); [reflexivity|discriminate]).
+  rewrite chroot_resolve_all_eq in Ho.
+  exact (closed_for_request 40 fuel res F r Hwf EF Hfin HR Hls Hlo Hr o Ho).
+Qed.
+
+End Final.
